@@ -75,6 +75,12 @@ package core
 //@   ensures poolInvA(gp) && (gp.cumulativeExecution > 0 || gp.cumulativeState > 0) ==> used <= gp.initial
 //@   nowrap
 
+// Snapshot/Set round trip (used when a transaction is rolled back during block building):
+// every counter of the pool is carried over.
+//@ func (gp *GasPool) Snapshot() (snap *GasPool)
+//@   serves C31
+//@   ensures isfresh(snap) && *snap == *gp
+
 //@ func (gp *GasPool) Set(other *GasPool)
 //@   serves C31
 //@   ensures *gp == old(*other)
